@@ -553,7 +553,8 @@ Definition berr_eqb (a b : berr) : bool :=
   end.
 Definition cerr_eqb (a b : cerr) : bool :=
   match a, b with
-  | CNone, CNone | CGather, CGather | CJobLabel, CJobLabel | CGroupLabel, CGroupLabel | CTransport, CTransport => true
+  | CNone, CNone | CGather, CGather | CJobLabel, CJobLabel | CGroupLabel, CGroupLabel | CTransport, CTransport
+  | COther, COther => true
   | CBuilder x, CBuilder y => berr_eqb x y
   | CStatus x, CStatus y => x =? y
   | _, _ => false
@@ -582,7 +583,10 @@ Definition hdr_value_is (h : header) (k : str) (vs : list str) : bool :=
    (The keys Content-Type and Authorization of the custom header are owned by the Pusher.) *)
 Definition spec_headers_ok (k : ckind) (ops : list bop) (h : header) : bool :=
   forallb (fun kv => str_eqb (fst kv) s_content_type || str_eqb (fst kv) s_authorization ||
-                     hdr_value_is h (fst kv) (snd kv)) (spec_header ops) &&
+                     match map_get (fst kv) (spec_header ops) with
+                     | Some vs => hdr_value_is h (fst kv) vs
+                     | None => true   (* impossible: the key is in the map *)
+                     end) (spec_header ops) &&
   match spec_auth ops with Some (u, pw) => hdr_value_is h s_authorization [basic_value u pw] | None => true end &&
   match k with KDelete => true | _ => hdr_value_is h s_content_type [spec_format ops] end.
 
